@@ -6,6 +6,8 @@ CONSTANTS
   MaxT = 2
   MaxRolls = 2
   MaxEp = 6
+  Mode = "auto"
+  ResetClears = FALSE
   FlagRule = "term"
 INVARIANT NoLeak
 CONSTRAINT Bound
